@@ -380,6 +380,29 @@ def run(ctx):
                      "raised": "" if kind == "chart" else type(val).__name__})
         texts[f"miss-{k}"] = text
         ctx.evaluations += 1
+    # ... and when the file has a second fault as well (a [Song] without Resolution, an invalid Player2, a sync section
+    # without tempo): the missing section is reported first, as ValueError, whatever else is wrong with the file
+    k = 3
+    for req in (["SyncTrack"], ["Events"], ["SyncTrack", "Events"], ["Song"], ["Song", "Events"]):
+        for fault in ("song-without-resolution", "player2-invalid", "sync-without-tempo", "first-note-forced"):
+            s2, y2, t2 = list(song), list(sync), {h: list(b) for h, b in tracks.items()}
+            if fault == "song-without-resolution":
+                s2 = [ln for ln in s2 if not ln.lstrip().startswith("Resolution")]
+            elif fault == "player2-invalid":
+                s2 = s2 + ["Player2 = drums"]
+            elif fault == "sync-without-tempo":
+                y2 = [ln for ln in y2 if " = B " not in ln]
+            else:
+                h0 = headers[0]
+                t2[h0] = ["0 = N 5 0"] + t2[h0]
+            order = [t for t in base_order if t not in req]
+            text = build(s2, y2, events, t2, order)
+            kind, val, _ = parse_logged(text)
+            recs.append({"id": f"miss-{k}", "props": ["C06"], "kind": "missing", "removed": "+".join(req), "second_fault": fault,
+                         "raised": "" if kind == "chart" else type(val).__name__})
+            texts[f"miss-{k}"] = text
+            k += 1
+            ctx.evaluations += 1
     # ---- TRACE: seeded charts re-serialised in random section orders / newline styles
     for k in range(ctx.pick(60, 1500)):
         hs = r.sample(ALL_HEADERS, r.randrange(1, 9))
